@@ -351,7 +351,9 @@ def make_dirs(root, opts, unknown=None, raw_bad=None):
         allopts = BASE_OPTS + [o for o in opts if o[0] != "preprocess"] if not any(o[0] == "preprocess" for o in opts) else list(opts)
         cli = []
         if fmt in ("md", "md_alt"):
-            text = md_render(allopts, alt=fmt == "md_alt") + "\n\nFront page text.\n"
+            # (the line that ends the metadata may hold blanks; the text after it may look like a key)
+            sep = "\n     \t \nNote: front page text.\n" if (fmt == "md" and int(core.h([str(o) for o in allopts])[:2], 16) % 2 == 0) else "\n\nFront page text.\n"
+            text = md_render(allopts, alt=fmt == "md_alt") + sep
         elif fmt == "toml":
             text = "Front page text.\n"
             with open(os.path.join(d, "fpm.toml"), "w") as f:
@@ -628,8 +630,72 @@ def case_config_over_file(item):
         shutil.rmtree(root, ignore_errors=True)
 
 
+def case_toml_table(item):
+    """fpm.toml with an [extra.ford] table takes the place of the project file's metadata - also when the table is empty (everything
+    at its default) or holds comments only; the metadata lines of proj.md are then text."""
+    root = core.mktemp("vf_c15t_")
+    try:
+        viol = []
+        res = {}
+        for variant, table in (("one_neutral_key", "[extra.ford]\nquiet = false\n"), ("empty", "[extra.ford]\n"), ("comments_only", "[extra.ford]\n# nothing set here\n\n"),
+                               ("empty_inline", "[extra]\nford = {}\n")):
+            d = os.path.join(root, variant, "proj")
+            os.makedirs(d)
+            open(os.path.join(d, "fpm.toml"), "w").write('name = "x"\n' + table)
+            open(os.path.join(d, "proj.md"), "w").write(f"project: FromMetadata\nauthor: {item['author']}\n\nFront page text.\n")
+            res[variant] = run_ford_settings(d, d, [])
+            if res[variant]["outcome"] == "ok":
+                res[variant]["settings"] = json.loads(json.dumps(res[variant]["settings"], sort_keys=True, default=str).replace(os.path.realpath(os.path.dirname(d)), "<R>"))
+        ref = res["one_neutral_key"]
+        for variant, r in res.items():
+            if r["outcome"] != "ok":
+                viol.append({"kind": "valid_options_rejected", "format": "toml", "option": "(table " + variant + ")", "type": "table", "message": r.get("message", "")[:200], "cwd": 0})
+            elif ref["outcome"] == "ok" and r["settings"] != ref["settings"]:
+                diff = sorted(f for f in ref["settings"] if ref["settings"][f] != r["settings"].get(f))
+                viol.append({"kind": "formats_disagree", "format": "toml_table_" + variant, "fields": diff, "option": "(table)", "type": "table", "diff_only_in_set_fields": False,
+                             "reference": {f: ref["settings"][f] for f in diff}, variant: {f: r["settings"].get(f) for f in diff}})
+        return {"viol": viol, "n_runs": len(res), "contract": dict(CONTRACT), "sample": None}
+    finally:
+        shutil.rmtree(root, ignore_errors=True)
+
+
+def case_locale(item):
+    """The project file and fpm.toml are UTF-8 whatever the locale of the process: a non-ASCII option value reads the same from both
+    under LC_ALL=C (fresh interpreter: the default text encoding is fixed at start-up)."""
+    import subprocess
+
+    root = core.mktemp("vf_c15l_")
+    try:
+        viol = []
+        got = {}
+        val = item["value"]
+        for fmt in ("md", "toml"):
+            d = os.path.join(root, fmt)
+            os.makedirs(d)
+            if fmt == "md":
+                open(os.path.join(d, "proj.md"), "w", encoding="utf-8").write(f"project: {val}\npreprocess: false\n\nFront page text.\n")
+            else:
+                open(os.path.join(d, "proj.md"), "w", encoding="utf-8").write("Front page text.\n")
+                open(os.path.join(d, "fpm.toml"), "w", encoding="utf-8").write(f'name = "x"\n[extra.ford]\nproject = {json.dumps(val, ensure_ascii=False)}\npreprocess = false\n')
+            code = ("import sys, json\nsys.path.insert(0, %r)\nimport ford\nsys.argv = ['ford', 'proj.md']\n"
+                    "s, docs = ford.initialize()\nsys.stdout.buffer.write(json.dumps({'project': s.project}).encode('ascii'))\n" % core.REPO)
+            env = {**os.environ, "LC_ALL": "C", "LANG": "C", "PYTHONUTF8": "0", "PYTHONCOERCECLOCALE": "0", "FORD_DEBUGGING": "1"}
+            env.pop("PYTHONIOENCODING", None)
+            p_ = subprocess.run([sys.executable, "-c", code], cwd=d, env=env, capture_output=True, timeout=120)
+            try:
+                got[fmt] = json.loads(p_.stdout.decode("ascii").strip().splitlines()[-1])["project"] if p_.returncode == 0 else f"exit {p_.returncode}: " + p_.stderr.decode("utf-8", "replace").strip().splitlines()[-1][:150]
+            except Exception as e:  # noqa: BLE001
+                got[fmt] = f"unreadable output ({type(e).__name__}): " + p_.stdout.decode("utf-8", "replace")[-150:]
+        for fmt in ("md", "toml"):
+            if got[fmt] != val:
+                viol.append({"kind": "value_not_as_written", "format": fmt + "_under_C_locale", "option": "project", "type": "str", "expected": val, "observed": got[fmt]})
+        return {"viol": viol, "n_runs": 2, "contract": dict(CONTRACT), "sample": None}
+    finally:
+        shutil.rmtree(root, ignore_errors=True)
+
+
 def dispatch(item):
-    return {"equiv": case_equivalence, "prec": case_precedence, "unknown": case_unknown_key, "bad": case_bad_value, "prec_config": case_config_over_file}[item["kind"]](item)
+    return {"equiv": case_equivalence, "prec": case_precedence, "unknown": case_unknown_key, "bad": case_bad_value, "prec_config": case_config_over_file, "toml_table": case_toml_table, "locale": case_locale}[item["kind"]](item)
 
 
 # fields that ProjectSettings.__post_init__ normalises (used only to key a known finding)
@@ -686,6 +752,10 @@ def main():
             items.append({"kind": "bad", "name": f.name, "cls": cls, "md": md_text, "toml": toml_lit})
     for name in CLI_FLAGS:
         items.append({"kind": "prec", "name": name})
+    for a in ("A. Uthor", "someone else"):
+        items.append({"kind": "toml_table", "author": a})
+    for v in ("Caf\u00e9 na\u00efve", "\u03a9mega \u2014 project"):
+        items.append({"kind": "locale", "value": v})
     for f in fields:
         cls = classes[f.name]
         vals = values_for(f.name, cls, rng)
